@@ -1,18 +1,4 @@
-mod byron;
-mod c33;
-mod c34;
-mod c35;
-mod c36;
-mod c37;
-mod c38;
-mod c39;
-mod forge;
-mod gen;
-mod pp;
-mod run;
-mod selftest;
-mod view;
-
+use pv_validate::{c33, c34, c35, c36, c37, c38, c39, selftest};
 use pvkit::session::CheckDef;
 
 fn main() {
